@@ -10,6 +10,7 @@ import (
 	"sort"
 	"sync"
 	"sync/atomic"
+	"time"
 
 	"github.com/hashicorp/eventlogger"
 	"github.com/hashicorp/eventlogger/filters/encrypt"
@@ -189,6 +190,9 @@ func RunKeys(outFile string, seed int64, n int) (*Report, error) {
 					if op.Kind == "rotate" {
 						var opts []encrypt.Option
 						r := &rot{}
+						if len(progs) > 1 {
+							r.slow = time.Duration(20+crng.Intn(120)) * time.Microsecond // concurrent history: widen the rotation
+						}
 						matMu.Lock()
 						if op.W {
 							w := NewWrapper(fmt.Sprintf("h%d-w%d", h, len(wrappers)))
